@@ -32,9 +32,94 @@ func runC06(p *core.Prog, r *core.Report) {
 	c06R4(p, r)
 	r.Rule("C06.R5", "every access to the registry scheme's manifest/referrer caches keys by the SetDigest-normalised reference, so a delete evicts exactly what a put or get stored", 8)
 	cacheKeyRule(p, r, "C06.R5", regCacheCalls(p))
-	c06R6(p, r)
+	c06R6(p, r, "C06.R6")
 	staleIndexRule(p, r, "C06.R7")
 	c06R8(p, r)
+	c06R9(p, r, "C06.R9")
+}
+
+// c06R9: an entry without a name is not the entry of the empty tag. Where an entry's ref.name
+// annotation is compared with the requested tag, either the annotation is known to be present (the
+// comma-ok form of the lookup) or the tag is known to be set.
+func c06R9(p *core.Prog, r *core.Report, rule string) {
+	r.Rule(rule, "untagged entries are not matched by an empty tag: every exact comparison of a ref.name annotation with the requested tag in scheme/ocidir is guarded by the presence of the annotation (comma-ok lookup) or by a test that the tag is not empty (a push by digest must not replace, and a later collection must not sweep, the untagged entries of other images)", 3)
+	n := 0
+	for _, fn := range pkgFuncs(p, "scheme/ocidir") {
+		lab := labeler{}
+		for _, b := range fn.Blocks {
+			for _, in := range b.Instrs {
+				bo, ok := in.(*ssa.BinOp)
+				if !ok || bo.Op != token.EQL {
+					continue
+				}
+				var name, tag ssa.Value
+				switch {
+				case refNameLookup(bo.X, map[ssa.Value]bool{}) && isTagValue(bo.Y):
+					name, tag = bo.X, bo.Y
+				case refNameLookup(bo.Y, map[ssa.Value]bool{}) && isTagValue(bo.X):
+					name, tag = bo.Y, bo.X
+				default:
+					continue
+				}
+				n++
+				label := lab.next("ref.name == tag")
+				guarded := false
+				// the annotation came from a comma-ok lookup whose ok is tested
+				commaOK := func(v ssa.Value) bool {
+					ex, ok := v.(*ssa.Extract)
+					if !ok || ex.Index != 0 {
+						return false
+					}
+					lk, ok := ex.Tuple.(*ssa.Lookup)
+					return ok && lk.CommaOk
+				}
+				if commaOK(name) {
+					guarded = true
+				}
+				for _, g := range core.Guards(b) {
+					c, pol := core.StripNot(g.Cond, g.Polarity)
+					if gb, ok := c.(*ssa.BinOp); ok && (gb.Op == token.NEQ || gb.Op == token.EQL) {
+						for _, side := range [][2]ssa.Value{{gb.X, gb.Y}, {gb.Y, gb.X}} {
+							if sv, isC := core.ConstString(side[1]); isC && sv == "" && isTagValue(side[0]) && (gb.Op == token.NEQ) == pol {
+								guarded = true
+							}
+						}
+					}
+				}
+				// an early return on the empty tag at the head of the (enclosing) function
+				for f := fn; f != nil && !guarded; f = f.Parent() {
+					for _, eb := range f.Blocks {
+						ifi, ok := core.LastInstr(eb).(*ssa.If)
+						if !ok {
+							continue
+						}
+						c, pol := core.StripNot(ifi.Cond, true)
+						gb, ok := c.(*ssa.BinOp)
+						if !ok || (gb.Op != token.EQL && gb.Op != token.NEQ) {
+							continue
+						}
+						sv, isC := core.ConstString(gb.Y)
+						if !isC || sv != "" || !isTagValue(gb.X) {
+							continue
+						}
+						// the successor taken when the tag is empty only returns
+						emptySucc := eb.Succs[0]
+						if (gb.Op == token.EQL) != pol {
+							emptySucc = eb.Succs[1]
+						}
+						if _, isRet := core.LastInstr(emptySucc).(*ssa.Return); isRet && f == fn && eb.Dominates(b) {
+							guarded = true
+						}
+					}
+				}
+				_ = tag
+				r.Check(guarded, rule, p.FuncName(fn), label, p.Pos(bo.Pos()), "the annotation of an entry (empty when the entry has none) is compared with a tag that may be empty: a request without a tag matches every untagged entry of the index")
+			}
+		}
+	}
+	if n == 0 {
+		r.MissingAnchor(rule, "comparisons of ref.name annotations with the requested tag in scheme/ocidir")
+	}
 }
 
 // lockProblemsToReport turns the problems of a lock analysis into violations of rule.
@@ -684,8 +769,7 @@ func isTagValue(v ssa.Value) bool {
 	return false
 }
 
-func c06R6(p *core.Prog, r *core.Report) {
-	const rule = "C06.R6"
+func c06R6(p *core.Prog, r *core.Report, rule string) {
 	r.Rule(rule, "layout tag lookup: a loose comparison of a ref.name annotation (suffix, prefix, substring, case folding, pattern) is evaluated only after a complete pass of exact comparisons over the same entries has found nothing, so an exact tag can never be shadowed by a foreign name that merely ends in it", 1)
 	loose := map[string]bool{"HasSuffix": true, "HasPrefix": true, "Contains": true, "EqualFold": true, "Index": true, "LastIndex": true, "MatchString": true, "Cut": true, "TrimPrefix": true, "TrimSuffix": true}
 	n := 0
